@@ -426,13 +426,35 @@ def R4_identifiers(ctx):
 def R5_tables(ctx):
     """C20.R5 table alignment at load"""
     F = ctx.F
-    ctx.rule("C20.R5", "the traversal plugin's geometry table is read with read_raw_file in row order (row = edge id)", floor=1)
+    ctx.rule("C20.R5", "the traversal plugin's geometry table is read with read_raw_file in row order (row = edge id) and stored as it was read (no row removed, moved or added)", floor=2)
     cands = [b for p, b in F.bodies.items() if p.startswith(T + "plugin::TraversalPlugin::from_file") and b.kind == "assocfn"]
     if not cands:
         raise AnchorMissing("TraversalPlugin::from_file")
     b = cands[0]
     rr = [c for c in b.calls() if c.callee and c.callee.endswith("read_utils::read_raw_file")]
     ctx.check(len(rr) == 1, "geometry:read_raw_file", "the geometry table is not read with read_raw_file", b.where(), detail="read_raw_file(geometry file, parse_linestring)")
+    # the stored table is that read result itself (row i = edge i): only row-preserving steps between the read and the field —
+    # no filter / dedup / sort / skip.  (round 6: blank rows decoded to empty linestrings by the row parser and then filtered
+    # out of the table by from_file: every later edge was rendered with its neighbour's geometry.)
+    ftm = Terms(b)
+    aggs = [x for x in subterms(nosite(deep_strip(ftm.return_term()))) if x[0] == "agg" and x[1].endswith("TraversalPlugin")]
+    okt = len(aggs) >= 1
+    why = "no TraversalPlugin value built"
+    for a in aggs:
+        f = dict(a[3])
+        g = f.get("geoms")
+        if g is None:
+            okt = False; why = "no geoms field"; break
+        rrt = [x for x in calls_in(g) if x[1].endswith("read_utils::read_raw_file")]
+        if len(rrt) != 1:
+            okt = False; why = "geoms does not come from one read_raw_file"; break
+        t_ = clean(g)
+        while okt and t_ != clean(rrt[0]):
+            if t_[0] == "call" and t_[2] and re.search(r"Result::<T, E>::map_err$|::(into_iter|iter|into_boxed_slice|into_vec|to_vec)$|Iterator>?::(cloned|copied|collect)(\{.*\})?$|Itertools::collect_vec$|From<.*>>::from$|Into<.*>>::into$", t_[1]):
+                t_ = t_[2][0]
+            else:
+                okt = False; why = "between the read and the table: %s" % short(t_)[:120]
+    ctx.check(okt, "geometry:table=read-result", "the geometry table is not the row-aligned read result itself (%s)" % why, b.where(), detail="geoms = read_raw_file(..)? unchanged")
 
 
 def R6_readers(ctx):
